@@ -46,6 +46,9 @@ pub struct Scenario<'a> {
     pub max_time: u64,
     /// extra events mixed in with this probability (in 1/16): chosen by the closure
     pub extra16: u64,
+    /// when set, call i delivers exactly script(i) (the generated history is not used)
+    pub script: Option<&'a dyn Fn(usize, &[Act]) -> Vec<TriggerEvent>>,
+    // (the second argument: the actions the previous call returned)
 }
 
 pub struct RunSummary {
@@ -78,7 +81,10 @@ pub fn run_scenario(
     let mut hist_hash = 0u64;
     let mut last_acts: Vec<Act> = vec![];
     for i in 0..sc.h.calls {
-        let mut events = eg.next_batch(r, n, &sc.h);
+        let mut events = match sc.script {
+            Some(f) => f(i, &last_acts),
+            None => eg.next_batch(r, n, &sc.h),
+        };
         if sc.extra16 > 0 {
             use crate::util::Pick;
             for e in events.iter_mut() {
